@@ -104,6 +104,8 @@ fn std_small(path: &str) -> bool {
         || path == "std::mem::replace"
         || path == "std::mem::take"
         || path == "<T as std::convert::Into<U>>::into"
+        || path == "core::bool::<impl bool>::then"
+        || path == "core::bool::<impl bool>::then_some"
 }
 
 fn span_loc(tcx: TyCtxt<'_>, sp: Span) -> (String, usize) {
